@@ -288,6 +288,70 @@ pub fn gen_program(r: &mut Rng, tier: Tier) -> (Vec<u8>, &'static str) {
     }
 }
 
+fn cancelled_scenario(code: &[u8], knobs: &Knobs, sched: &Sched, k: u64, one_shot: bool) -> Scenario {
+    let mut wd = WdPlan::stop_at(1, k);
+    wd.flap = one_shot;
+    wd.budget = Some(STEP_BUDGET);
+    Scenario {
+        code: code.to_vec(),
+        knobs: knobs.clone(),
+        sched: sched.clone(),
+        wd,
+        api: Api::OneCall,
+        poisoned_table: false,
+    }
+}
+
+/// Runs the program with a stop request at poll `k` (interval 1; sticky or
+/// visible to that one poll only) under three schedules. Compared only if
+/// every run actually saw the request.
+fn cancelled_outcomes(code: &[u8], knobs: &Knobs, scheds: &[Sched], k: u64, one_shot: bool, res: Option<&mut CaseResult>) -> Option<Vec<Outcome>> {
+    let mut outs = Vec::new();
+    let mut res = res;
+    for sched in scheds {
+        let out = sim::run(&cancelled_scenario(code, knobs, sched, k, one_shot), &RunOpts::default());
+        if let Some(r) = res.as_deref_mut() {
+            r.runs += 1;
+            r.steps += out.polls;
+        }
+        if out.first_true.is_none() || out.budget_exhausted {
+            return None;
+        }
+        outs.push(out);
+    }
+    Some(outs)
+}
+
+fn cancelled_divergence(code: &[u8], knobs: &Knobs, scheds: &[Sched], r: &mut Rng, res: &mut CaseResult) -> Option<Violation> {
+    let three: Vec<Sched> = vec![scheds[0].clone(), scheds[1 % scheds.len()].clone(), scheds[scheds.len() - 1].clone()];
+    let mut probe_sc = cancelled_scenario(code, knobs, &three[0], u64::MAX, false);
+    probe_sc.wd.stop_at = None;
+    let probe = sim::run(&probe_sc, &RunOpts::default());
+    res.runs += 1;
+    if probe.polls == 0 || probe.budget_exhausted || probe.class == Class::Panic {
+        return None;
+    }
+    // Later polls (the type checker's) a little more often than the VM's.
+    let k = if r.chance(1, 2) { r.below(probe.polls) } else { probe.polls - 1 - r.below(probe.polls.min(40)) };
+    let one_shot = r.chance(1, 2);
+    let outs = cancelled_outcomes(code, knobs, &three, k, one_shot, Some(res))?;
+    res.fault(if one_shot { "one_shot_stop_request_under_three_orders" } else { "sticky_stop_request_under_three_orders" });
+    let first = outs[0].result_digest();
+    let ix = outs.iter().position(|o| o.result_digest() != first)?;
+    let site = outs[0].first_true_site.map_or("none", |s| storage_layout_extractor::verif::SITE_NAMES[s]);
+    let show = |o: &Outcome| match o.class {
+        Class::Ok => format!("layout with {} slots", o.layout.as_ref().map_or(0, |l| l.slots().len())),
+        Class::Err => format!("error {:?}", o.error_kinds()),
+        Class::Panic => "panic".to_string(),
+    };
+    Some(Violation {
+        property:  "C02".into(),
+        signature: format!("cancelled:{} stop request seen in {site}: {} | {}", if one_shot { "one-shot" } else { "sticky" }, show(&outs[0]), show(&outs[ix])),
+        detail:    json!({"program": hex::encode(code), "knobs": knobs, "stop_at_poll": k, "one_shot": one_shot, "schedule_a": three[0].label(), "schedule_b": three[ix].label(), "result_a": outs[0].summary(), "result_b": outs[ix].summary()}),
+        replay:    json!({"check": "C02", "kind": "cancelled", "code": hex::encode(code), "knobs": knobs, "sched_a": three[0], "sched_b": three[ix], "k": k, "one_shot": one_shot}),
+    })
+}
+
 impl Check for C02Check {
     fn info(&self) -> CheckInfo {
         CheckInfo {
@@ -371,6 +435,16 @@ impl Check for C02Check {
                 replay:    json!({"check": "C02", "kind": "pair", "code": hex::encode(&small), "knobs": knobs, "sched_a": scheds[0], "sched_b": scheds[ix]}),
             });
         }
+        // One case in four: the same analysis *cancelled at the same poll*
+        // under three iteration orders. The watchdog's answers are part of
+        // the configuration, so the result (a stop error, or whatever the
+        // library makes of a stop request that is visible to one poll only)
+        // must not depend on the order either.
+        if res.violations.is_empty() && r.chance(1, 4) {
+            if let Some(v) = cancelled_divergence(&code, &knobs, &scheds, &mut r, &mut res) {
+                res.violations.push(v);
+            }
+        }
         if idx < 5 {
             res.sample = Some(json!({"case": idx, "seed": seed, "workload": family, "program": hex::encode(&code), "knobs": knobs, "schedules": scheds.iter().map(Sched::label).collect::<Vec<_>>()}));
         }
@@ -383,6 +457,22 @@ impl Check for C02Check {
         let a: Sched = serde_json::from_value(payload["sched_a"].clone()).map_err(|e| e.to_string())?;
         let b: Sched = serde_json::from_value(payload["sched_b"].clone()).map_err(|e| e.to_string())?;
         let scheds = [a.clone(), b.clone()];
+        if payload["kind"].as_str() == Some("cancelled") {
+            let k = payload["k"].as_u64().ok_or("no k")?;
+            let one_shot = payload["one_shot"].as_bool().unwrap_or(false);
+            let Some(outs) = cancelled_outcomes(&code, &knobs, &scheds, k, one_shot, None) else {
+                return Ok(None);
+            };
+            if outs[0].result_digest() == outs[1].result_digest() {
+                return Ok(None);
+            }
+            return Ok(Some(Violation {
+                property:  "C02".into(),
+                signature: format!("cancelled:{} stop request: results differ", if one_shot { "one-shot" } else { "sticky" }),
+                detail:    json!({"result_a": outs[0].summary(), "result_b": outs[1].summary()}),
+                replay:    payload.clone(),
+            }));
+        }
         if payload["big"].as_bool() == Some(true) {
             BUDGET.with(|x| x.set(BIG_STEP_BUDGET));
         }
